@@ -12,8 +12,8 @@ import (
 // C14: requested-header lists: sound for any bytes, complete for browsers.
 
 type C14Case struct {
-	Names []Str `json:"allowed_names"` // as configured (any case, any order, duplicates)
-	Lines []Val `json:"acrh_lines"`
+	Names []Str  `json:"allowed_names"` // as configured (any case, any order, duplicates)
+	Lines []Val  `json:"acrh_lines"`
 	Note  string `json:"note,omitempty"`
 }
 
